@@ -11,7 +11,8 @@ def run(rep, tier, seed):
     rep.bounds['trees'] = 'hand-enumerated trees of depth <= 2 (14 service trees, 8 factory trees, 7 readiness trees); deeper trees are outside the claim'
     # the polling contract (no poll after completion, current waker, pending only while an inner future is pending, stages at most once)
     # is asserted inside the drive loop of the c11 service-tree harnesses; the c12 harnesses cover readiness
-    sel = lambda h: h.startswith('c12_') or (h.startswith('c11_') and not h.startswith('c11_fac_'))
+    # ... and of the two-factory harness (an init future of a factory combinator must not be polled again after it completed either)
+    sel = lambda h: h.startswith('c12_') or (h.startswith('c11_') and not h.startswith('c11_fac_')) or h == 'c11_fac_and_then'
     kani.check(rep, 'C12', 'service', sel, () if q else ('thorough',), wall=900 if q else 2400)
 
 
